@@ -20,7 +20,7 @@ import re
 
 from ..interp import Interp, World, Obj, Sym, PyVec, ThrowEx, NOT_HANDLED, explore
 from ..effects import Effects, path_str, first_index, fields_of
-from ..sir import pp, strip, walk, AnalysisBroken
+from ..sir import pp, strip, walk, calls, AnalysisBroken
 from .. import model, extract
 
 SEQ = "fastscapelib::flow_operator_sequence"
@@ -346,7 +346,21 @@ def run(db, chk):
             for (k, p, h) in eff.summary(fn).effects:
                 if k == "w" and p[0] == ("this",) and fields_of(p) and fields_of(p)[0] in flagm:
                     writers.setdefault(fn.name if not fn.is_ctor else "<ctor>", set()).add(fields_of(p)[0])
-        allowed = {"add_operator", "update_snapshots", "<ctor>", "operator="}
+        # the functions T1 / T4 interpret: constructors, move assignment, add_operator and whatever
+        # private helpers add_operator calls (resolved through the call graph, not by name)
+        allowed = {"add_operator", "<ctor>", "operator="}
+        work = [f for f in db.fns(unit=uname, pred=lambda f: f.cls == SEQ and f.name == "add_operator")]
+        seen_k = set()
+        while work:
+            f = work.pop()
+            if f.key in seen_k:
+                continue
+            seen_k.add(f.key)
+            for c in calls(f.body):
+                cal = f.callee(c)
+                if cal is not None and cal.cls == SEQ:
+                    allowed.add(cal.name)
+                    work.append(cal)
         extra = sorted(set(writers) - allowed)
         chk.ob("C20-T3", "sequence flags written only by %s [%s]" % (sorted(writers), uname),
                not extra, where="fastscapelib/flow/flow_operator.hpp", function=SEQ,
